@@ -1262,6 +1262,64 @@ func (e *Engine) evalDesignator(st *State, env *cenv, x *CExpr) ([]desig, error)
 				}
 			}
 			return out, nil
+		case "allof":
+			// allof(T.f): field f of every object of (named struct) type T
+			txt := typeTextOf(x.Args[1])
+			k := strings.LastIndex(txt, ".")
+			if k < 0 {
+				return nil, fmt.Errorf("allof(T.f)")
+			}
+			tt, err := e.resolveType(txt[:k], env.pkgPath, env.imports)
+			if err != nil {
+				return nil, err
+			}
+			stt, ok := tt.Underlying().(*types.Struct)
+			if !ok {
+				return nil, fmt.Errorf("allof(): %s is not a struct type", txt[:k])
+			}
+			for i := 0; i < stt.NumFields(); i++ {
+				if stt.Field(i).Name() != txt[k+1:] {
+					continue
+				}
+				tag := intLit(int64(e.typeTag(tt)))
+				idx := intLit(int64(i))
+				owner := func(a string, depth int) string {
+					// the address lies at depth levels below an object of type T, entered through field idx
+					p := "(path " + a + ")"
+					var cs []string
+					for d := 0; d < depth; d++ {
+						cs = append(cs, "(or ((_ is pfld) "+p+") ((_ is pelem) "+p+"))")
+						p = "(ite ((_ is pfld) " + p + ") (pfb " + p + ") (peb " + p + "))"
+					}
+					cs = append(cs, "((_ is pfld) "+p+")", "(= (pfi "+p+") "+idx+")", "(= (dyntype (ref (root "+a+") (pfb "+p+"))) "+tag+")")
+					return sAnd(cs...)
+				}
+				leafPaths("X", stt.Field(i).Type(), func(a string, lk Kind, lt types.Type) {
+					depth := strings.Count(a, "(fld ") + strings.Count(a, "(elem ")
+					out = append(out, desig{heap: heapFor(lk, lt), pred: func(a string) string {
+						return sAnd("((_ is ref) "+a+")", owner(a, depth))
+					}})
+				})
+				return out, nil
+			}
+			return nil, fmt.Errorf("allof(): no field %s in %s", txt[k+1:], txt[:k])
+		case "allmaps":
+			// allmaps(m): every map of m's type
+			v, err := e.evalC(st, env, x.Args[1])
+			if err != nil {
+				return nil, err
+			}
+			mt, ok := v.Ty.Underlying().(*types.Map)
+			if !ok {
+				return nil, fmt.Errorf("allmaps() needs a map")
+			}
+			tag := intLit(int64(e.typeTag(mt)))
+			pred := func(a string) string { return "(= (dyntype " + a + ") " + tag + ")" }
+			out = append(out, desig{heap: e.mapDomHeap(mt), pred: pred}, desig{heap: "ML", pred: pred})
+			if vh, _, sc := e.mapValHeap(mt); sc {
+				out = append(out, desig{heap: vh, pred: pred})
+			}
+			return out, nil
 		case "obj":
 			v, err := e.evalC(st, env, x.Args[1])
 			if err != nil {
